@@ -129,8 +129,26 @@ def shared_parts_rule(repo: Repo, prop: str, rule_id: str, floor: int = 3) -> Ru
                     for x in ast.walk(t):
                         if isinstance(x, ast.Name):
                             counts[x.id] = counts.get(x.id, 0) + 1
-        for st in fn.node.body:
-            if isinstance(st, ast.Assign) and len(st.targets) == 1 and isinstance(st.targets[0], ast.Name) and isinstance(st.value, ast.Call) and counts.get(st.targets[0].id) == 1:
+        # ancestors of every node of the function (nested functions excluded): loops and branch arms
+        LOOPS = (ast.For, ast.While, ast.ListComp, ast.GeneratorExp, ast.SetComp, ast.DictComp)
+        loops_of: Dict[int, Tuple[int, ...]] = {}
+        arms_of: Dict[int, Tuple[Tuple[int, str], ...]] = {}
+
+        def index(node, loops, arms):
+            for field, value in ast.iter_fields(node):
+                children = value if isinstance(value, list) else [value]
+                for child in children:
+                    if not isinstance(child, ast.AST) or isinstance(child, (ast.FunctionDef, ast.Lambda, ast.ClassDef)):
+                        continue
+                    lp = loops + ((id(node),) if isinstance(node, LOOPS) and field not in ("iter", "test") else ())
+                    ar = arms + (((id(node), field),) if isinstance(node, (ast.If, ast.IfExp, ast.Try)) and field in ("body", "orelse", "handlers") else ())
+                    loops_of[id(child)] = lp
+                    arms_of[id(child)] = ar
+                    index(child, lp, ar)
+
+        index(fn.node, (), ())
+        for st in ast.walk(fn.node):
+            if isinstance(st, ast.Assign) and id(st) in loops_of and len(st.targets) == 1 and isinstance(st.targets[0], ast.Name) and isinstance(st.value, ast.Call) and counts.get(st.targets[0].id) == 1:
                 if env is None:
                     env = TypeEnv(repo, fn)
                 cls = st_cls(env.type_of(st.value))
@@ -139,31 +157,36 @@ def shared_parts_rule(repo: Repo, prop: str, rule_id: str, floor: int = 3) -> Ru
         if not fresh:
             continue
         uses: Dict[str, List[Tuple[ast.Call, bool, FuncInfo]]] = {}
-
-        def scan(node, in_loop):
-            for child in ast.iter_child_nodes(node):
-                if isinstance(child, (ast.FunctionDef, ast.Lambda, ast.ClassDef)):
+        for child in ast.walk(fn.node):
+            if isinstance(child, ast.Call) and id(child) in loops_of:
+                named = [(i, a) for i, a in enumerate(child.args) if isinstance(a, ast.Name) and a.id in fresh]
+                if not named:
                     continue
-                loop = in_loop or isinstance(child, (ast.For, ast.While, ast.ListComp, ast.GeneratorExp, ast.SetComp, ast.DictComp))
-                if isinstance(child, ast.Call):
-                    callees, _ = env.resolve_call(child)
-                    for i, a in enumerate(child.args):
-                        if isinstance(a, ast.Name) and a.id in fresh:
-                            for c in callees:
-                                off = 1 if (c.cls is not None and not c.is_staticmethod and isinstance(child.func, ast.Attribute)) else 0
-                                if c.name == "__init__":
-                                    off = 1
-                                if _stores_param(c, i + off):
-                                    uses.setdefault(a.id, []).append((child, in_loop, c))
-                scan(child, loop)
+                callees, _ = env.resolve_call(child)
+                for i, a in named:
+                    in_loop = bool(set(loops_of[id(child)]) - set(loops_of[id(fresh[a.id])]))  # a loop around the use that does not re-create the object
+                    for c in callees:
+                        off = 1 if (c.cls is not None and not c.is_staticmethod and isinstance(child.func, ast.Attribute)) else 0
+                        if c.name == "__init__":
+                            off = 1
+                        if _stores_param(c, i + off):
+                            uses.setdefault(a.id, []).append((child, in_loop, c))
 
-        scan(fn.node, False)
+        def exclusive(c1, c2) -> bool:
+            """two uses in different arms of one if / try: at most one of them runs"""
+            a1, a2 = dict(arms_of[id(c1)]), dict(arms_of[id(c2)])
+            return any(k in a2 and a2[k] != f for k, f in a1.items())
+
         nth: Dict[str, int] = {}
         for name, st in sorted(fresh.items(), key=lambda kv: kv[1].lineno):
             us = uses.get(name, [])
             if not us:
                 continue
-            shared = len(us) > 1 or any(lp for _, lp, _ in us)
+            calls = []
+            for c, _, _ in us:
+                if all(c is not k for k in calls):
+                    calls.append(c)
+            shared = any(lp for _, lp, _ in us) or any(not exclusive(calls[i], calls[j]) for i in range(len(calls)) for j in range(i + 1, len(calls)))
             cls = st_cls(env.type_of(st.value))
             r.check(
                 not shared,
@@ -385,4 +408,87 @@ def class_state_rule(repo: Repo, prop: str, rule_id: str, floor: int = 5) -> Rul
                 writers[0].node if writers else cls.node,
                 key=f"classvar:{name}",
             )
+    return r
+
+
+# ---------------------------------------------------------------------------------------------------------------------
+def inplace_dtype_rule(repo: Repo, prop: str, rule_id: str, floor: int = 6) -> RuleRun:
+    """Coordinates written INTO an existing array (``a[i] = x``, ``a[:] = x``, ``a += x``) are converted to that array's dtype.
+    ``np.array([3, 3, 3])`` - what a user gets who types whole-number coordinates - is an integer array: every position stored
+    into it in place is truncated towards zero without any error. So every attribute that is stored into in place must be
+    created with an explicit floating dtype (``np.array(x, dtype=DTYPE)``) wherever its class defines it; attributes that are
+    merely re-bound (``self.leader = position``) take the dtype of the new value and are fine."""
+    r = RuleRun(prop, rule_id, floor=floor, what="arrays that are written into in place (element, slice or augmented assignment) are created with an explicit float dtype - an integer array typed by the user would truncate the coordinates stored into it")
+    # attribute name -> list of (class, defining value) over the whole package
+    defs: Dict[str, List[Tuple[Any, ast.expr, Any]]] = {}
+    for fn in repo.all_functions():
+        if fn.cls is None:
+            continue
+        for n in ast.walk(fn.node):
+            if isinstance(n, (ast.Assign, ast.AnnAssign)) and n.value is not None:
+                for t in n.targets if isinstance(n, ast.Assign) else [n.target]:
+                    if isinstance(t, ast.Attribute) and isinstance(t.value, ast.Name) and t.value.id == "self":
+                        defs.setdefault(t.attr, []).append((fn.cls, n.value, fn))
+
+    def creation(value: ast.expr) -> str:
+        """'float' (explicit float dtype), 'untyped' (np.array/asarray of something, no dtype), 'other'"""
+        if isinstance(value, ast.Call):
+            nm = attr_chain(value.func) or ""
+            if nm.split(".")[-1] in ("array", "asarray", "asanyarray") and nm.split(".")[0] in ("np", "numpy"):
+                dt = [k for k in value.keywords if k.arg == "dtype"]
+                if len(value.args) >= 2 or dt:
+                    return "float"
+                inner = value.args[0] if value.args else None
+                # a list of float arrays (positions of Point objects) is float already
+                if inner is not None and any(isinstance(x, ast.Attribute) and x.attr == "position" for x in ast.walk(inner)):
+                    return "float"
+                return "untyped"
+            if nm.split(".")[-1] in ("zeros", "ones", "empty", "full", "linspace", "average", "mean"):
+                return "float"
+        return "other"
+
+    seen = 0
+    nth: Dict[str, int] = {}
+    for fn in sorted(repo.all_functions(), key=lambda f: f.qualname):
+        env = None
+        for n in ast.walk(fn.node):
+            tgt = None
+            if isinstance(n, ast.Assign):
+                for t in n.targets:
+                    if isinstance(t, ast.Subscript) and isinstance(t.value, ast.Attribute):
+                        tgt = t.value
+            elif isinstance(n, ast.AugAssign):
+                if isinstance(n.target, ast.Subscript) and isinstance(n.target.value, ast.Attribute):
+                    tgt = n.target.value
+                elif isinstance(n.target, ast.Attribute):
+                    tgt = n.target
+            if tgt is None:
+                continue
+            cands = defs.get(tgt.attr, [])
+            if env is None:
+                env = TypeEnv(repo, fn)
+            owner = st_cls(env.type_of(tgt.value))
+            if owner is not None:
+                mro = repo.mro(owner)
+                narrowed = [c for c in cands if c[0] in mro or owner in repo.mro(c[0])]
+                if narrowed:
+                    cands = narrowed
+            kinds = [(creation(v), c, f_) for c, v, f_ in cands]
+            arrays = [k for k in kinds if k[0] != "other"]
+            if not arrays:
+                continue  # a list, a dict, a parameter handed through: not an array this package creates
+            seen += 1
+            untyped = [k for k in arrays if k[0] == "untyped"]
+            key = _nth_key(nth, f"store:{tgt.attr}")
+            r.check(
+                not untyped,
+                fn,
+                f"'{ast.unparse(n)[:60]}': .{tgt.attr} is created with an explicit dtype ({', '.join(sorted({k[1].name for k in arrays}))})",
+                f"{fn.qualname} stores into .{tgt.attr} in place ('{ast.unparse(n)[:70]}') but "
+                + ", ".join(f"{k[1].name}.{k[2].name} creates it as np.array(...) without a dtype" for k in untyped[:2])
+                + ": for whole-number input (np.array([3, 3, 3]) is an integer array) every position stored into it is truncated towards zero, silently - re-bind the attribute or create it with dtype=float",
+                n,
+                key=key,
+            )
+    r.require(seen >= floor, f"only {seen} in-place stores into array attributes found")
     return r
